@@ -119,7 +119,7 @@ on_alarm (int sig)
 	(void) sig ;
 	fflush (stdout) ;
 	if (write (1, msg, sizeof (msg) - 1) < 0) { }
-	_exit (3) ;
+	SFH_EXIT (3) ;
 }
 
 /* The per-operation limit is a limit on CPU time (ITIMER_PROF: user + system time of this process, all threads), so that a loaded machine
@@ -249,7 +249,7 @@ op_open (char **tok, int ntok)
 				done += r ;
 				if (piece > 0) usleep (60) ;
 				}
-			_exit (0) ;
+			SFH_EXIT (0) ;
 			}
 		close (pfd [1]) ;
 		h->fd = pfd [0] ;
@@ -671,7 +671,7 @@ cmd_batch (FILE *in, int timeout_s)
 					for (k = 0 ; k < nlines ; k++) run_line (lines [k]) ;
 					fflush (stdout) ;
 					scratch_cleanup () ;
-					_exit (0) ;
+					SFH_EXIT (0) ;
 					}
 				waitpid (pid, &st, 0) ;
 				if (WIFSIGNALED (st)) printf ("\nCRASH signal=%d\n", WTERMSIG (st)) ;
